@@ -175,6 +175,29 @@ def run(tier):
     tools = build.build("asan") + "/bin"
     os.environ["ASAN_OPTIONS"] = "detect_leaks=0"
     rng = random.Random(SEED)
+    # the id table boundary (65535 ids fit the 16 bit count of the super block, 65536 do not) runs beside the
+    # scenario jobs: the library's id lookup is a linear search, one case takes ~30 s (plain) / ~60 s (ASan)
+    def idlimits():
+        idtools = (build.build("plain") + "/bin") if tier == "quick" else tools
+        res = []
+        for nid in ((65534, 65535) if tier == "quick" else (65534, 65535, 65536)):
+            sc = gen.Scenario(work, "u_ids_%d" % nid)
+            for i in range(nid):
+                sc.add_pipe("/p%06d" % i, uid=10 + i, gid=0)             # nid uids + id 0 (root, gid) = nid + 1 ids
+            out = sc.dir + "/o.sqfs"
+            rc, o, e = sh([idtools + "/gensquashfs", "-q", "-f", "-F", sc.packfile(), out], timeout=900)
+            diffs = []
+            if rc == 0:
+                try:
+                    diffs = fidelity.compare(sc.expected(), fidelity.decoded_tree(sqfsimg.load(out)), check_mtime=0)[:3]
+                except sqfsimg.DecodeError as ex:
+                    diffs = ["undecodable: %s" % ex]
+            res.append((nid, rc, diffs))
+            shutil.rmtree(sc.dir, ignore_errors=True)
+        return res
+    idpool = ThreadPoolExecutor(max_workers=1)
+    idlimit = idpool.submit(idlimits)
+
     cfg = work + "/f.cfg"
     ML = 2 if tier == "quick" else 3
     write_cfg(cfg, spec="Spec", constants={"MaxLen": ML, "Emit": False, "LinkFlagsDropped": False, "CycleCheckStartOnly": False},
@@ -306,22 +329,15 @@ def run(tier):
         t = sqfsimg.load(s.dir + "/o.sqfs").tree()
         if ("n" * 257).encode() not in t:
             rep.violation("unrepresentable-accepted", "a 257 byte name is accepted and stored altered")
-    if tier != "quick":
-        for nid in (65535, 65536, 65537):
-            s = gen.Scenario(work, "u_ids_%d" % nid)
-            for i in range(nid):
-                s.add_pipe("/p%06d" % i, uid=10 + i, gid=0)
-            out = s.dir + "/o.sqfs"
-            rc, o, e = sh([tools + "/gensquashfs", "-q", "-f", "-F", s.packfile(), out], timeout=600)
-            evaluations += 1
-            nontrivial.add("ids%d" % nid)
-            if rc == 0:
-                try:
-                    diffs = fidelity.compare(s.expected(), fidelity.decoded_tree(sqfsimg.load(out)), check_mtime=0)[:3]
-                except sqfsimg.DecodeError as ex:
-                    diffs = ["undecodable: %s" % ex]
-                if diffs:
-                    rep.violation("id-table-overflow", "%d distinct ids: exit 0 but the image does not read back: %s" % (nid + 1, diffs))
+    for nid, rc, diffs in idlimit.result():
+        evaluations += 1
+        nontrivial.add("ids%d" % (nid + 1))
+        if rc == 0 and nid + 1 > 0xFFFF:
+            rep.violation("id-table-overflow", "%d distinct ids: exit 0 but the super block id count has 16 bits%s" % (nid + 1, "; " + str(diffs) if diffs else ""))
+        elif rc == 0 and diffs:
+            rep.violation("id-table-overflow", "%d distinct ids: exit 0 but the image does not read back: %s" % (nid + 1, diffs))
+        elif rc != 0 and nid + 1 <= 0xFFFF:
+            rep.violation("pack-refuses-valid", "%d distinct ids are representable but gensquashfs refuses them (rc %d)" % (nid + 1, rc))
     ev.set("evaluations", evaluations)
     ev.set("distinct_nontrivial", len(nontrivial))
     ev.set("rule", "programs: every pack-file program of <=2 directives over 6 paths x 5 kinds emitted by TLC (all in thorough, half with link "
